@@ -383,6 +383,7 @@ func (d *Data) queryBackingStore(ctx storage.VersionedCtx, w http.ResponseWriter
 
 	dvid.Infof("store query using mdb with queryL: %v\n", queryL)
 	numMatches := 0
+	showUser, showTime := showFields.Bools()
 	process_func := func(key string, value NeuronJSON) {
 		if matches, err := queryMatch(queryL, value); err != nil {
 			dvid.Errorf("error in matching process: %v\n", err) // TODO: alter d.processRange to allow return of err
@@ -403,7 +404,7 @@ func (d *Data) queryBackingStore(ctx storage.VersionedCtx, w http.ResponseWriter
 			numMatches++
 			return
 		}
-		out := removeReservedFields(value, showFields)
+		out := selectFields(value, fieldMap, showUser, showTime) // as queryInMemory does
 		jsonBytes, err := json.Marshal(out)
 		if err != nil {
 			dvid.Errorf("error in JSON encoding: %v\n", err)
